@@ -111,15 +111,24 @@ def run_driver(ctx, scens, tag="t", udp=False):
         # the real Abaco source over localhost UDP (free-running cycles, then cycles with the receiver goroutine gated): failed start without data, start with data, stop, restart
         tu = ctx.path("trace_%s_udp.ndjson" % tag)
         rc, out = vlib.go_test(ctx, "", UDP, "TestVerifAbacoUDP$|TestVerifRoachSelfEnd$", env={"VERIF_OUT": tu}, timeout=600)
+        udp_crash = None
         if rc != 0:
-            raise vlib.MachineryError("abaco udp driver failed:\n" + out[-3000:])
+            # a panic in a goroutine of the code under test (not of the harness) ended the process: that is what happened
+            # to the server in this history, not a problem of the machinery
+            pl = [l for l in out.splitlines() if l.startswith("panic:")]
+            in_code = "github.com/usnistgov/dastard." in out and "zz_verif_" not in out.split("panic:", 1)[-1].split("created by", 1)[0]
+            if not pl or not in_code:
+                raise vlib.MachineryError("abaco udp driver failed:\n" + out[-3000:])
+            udp_crash = pl[0]
         ev = vlib.read_ndjson(tp)
         nscen = max([e["scen"] for e in ev if e["ev"] == "Begin"] or [0])
-        extra = vlib.read_ndjson(tu)
+        extra = vlib.read_ndjson(tu) if os.path.exists(tu) else []
+        if udp_crash:
+            extra.append({"ev": "Crash", "msg": udp_crash})
         ev.append({"ev": "Begin", "scen": nscen + 1, "origin": "udp-sources-localhost", "producer": "udp-sources"})
         gated = [e for e in extra if e["ev"] == "UDPGated"]
         starts_ok = all(e.get("err", "") == "" for e in extra if e["ev"] == "UDPStep" and e.get("scen") == 1 and e["step"] == "restart")
-        if (not gated or gated[0]["gated"] < 1) and starts_ok:   # (when the restarts themselves fail, the trace says so: let it be judged)
+        if (not gated or gated[0]["gated"] < 1) and starts_ok and not udp_crash:   # (when the restarts themselves fail, the trace says so: let it be judged)
             raise vlib.MachineryError("abaco udp driver: the receiver goroutine never reached its gate (hook AbacoUDP.loop missing?)")
         ctx.notes["abaco_udp_gated_stops"] = gated[0]["gated"] if gated else 0
         for e in extra:
